@@ -199,6 +199,7 @@ impl<E: ElemT> TableDrv<E> {
             }
         }
         tr.raw(&format!("{{\"op\":\"begin\",\"name\":\"{}\",\"t\":{},\"k\":{},\"n\":{}}}", ev.op, ev.t, ev.k, ev.n));
+        tr.flush(); // the marker must survive a crash inside the call
         if !E::TRACKED {
             ev.v = 0;
             // elements without identity: never store two indistinguishable elements (the abstract
